@@ -13,6 +13,7 @@ import (
 	"io/fs"
 	"os"
 	"path/filepath"
+	"regexp"
 	"sort"
 	"strings"
 	"sync"
@@ -492,7 +493,9 @@ func fnv(b []byte) uint64 {
 
 // CheckComplete verifies that replaying the whole journal reproduces the live
 // directory byte for byte (otherwise something bypassed the seam).
-func (d *Disk) CheckComplete(tmp string, initTree string) error {
+// ignore (may be nil) names relative paths that are known to be written outside
+// the seam and do not take part in any verdict (documented per world).
+func (d *Disk) CheckComplete(tmp string, initTree string, ignore func(rel string) bool) error {
 	j := d.Journal()
 	_ = os.RemoveAll(tmp)
 	if initTree != "" {
@@ -514,11 +517,17 @@ func (d *Disk) CheckComplete(tmp string, initTree string) error {
 	}
 	var diffs []string
 	for k, v := range a {
+		if ignore != nil && ignore(k) {
+			continue
+		}
 		if b[k] != v {
 			diffs = append(diffs, fmt.Sprintf("%s live=%s image=%s", k, v, b[k]))
 		}
 	}
 	for k, v := range b {
+		if ignore != nil && ignore(k) {
+			continue
+		}
 		if _, ok := a[k]; !ok {
 			diffs = append(diffs, fmt.Sprintf("%s live=<absent> image=%s", k, v))
 		}
@@ -855,4 +864,31 @@ func (s *FS) GetOBSTmpIndexFileName(path string, o *obs.ObsOptions) string {
 
 func (s *FS) DecodeRemotePathToLocal(path string) (string, error) {
 	return s.inner.DecodeRemotePathToLocal(path)
+}
+
+// RelocateTxn rewrites absolute paths stored *inside* files under a "txn"
+// directory (the mergeset's rename-transaction files name their source and
+// destination by absolute path).  A real restart reuses the same path; the
+// simulator restarts an incarnation on a fresh path, so the old root prefixes
+// are replaced by the new one.
+func RelocateTxn(dir string, scratch string, newRoot string) error {
+	// every incarnation / image root is a direct child of the run's scratch directory
+	re := regexp.MustCompile(regexp.QuoteMeta(filepath.Clean(scratch)) + `/[^/\n ]+/`)
+	return filepath.Walk(dir, func(p string, info fs.FileInfo, err error) error {
+		if err != nil {
+			return err
+		}
+		if info.IsDir() || !strings.Contains(p, "/txn/") {
+			return nil
+		}
+		b, err := os.ReadFile(p)
+		if err != nil {
+			return err
+		}
+		nb := re.ReplaceAll(b, []byte(filepath.Clean(newRoot)+"/"))
+		if !bytes.Equal(nb, b) {
+			return os.WriteFile(p, nb, 0o600)
+		}
+		return nil
+	})
 }
